@@ -8,7 +8,9 @@ EXTENDS Integers, Sequences, FiniteSets, TLC
 
 Prims  == {"int32", "int64", "float32", "float64", "bool", "string", "bytes"}
 Named  == {"enum", "fixed", "typeref", "custom", "record", "union"}     \* references to one named type of each kind
-Leaves == Prims \cup Named \cup {"raw"}
+\* the same kinds of named types defined in ANOTHER namespace (another Go package: qualified references, imports)
+NamedOther == {"o_enum", "o_fixed", "o_typeref", "o_record", "o_union"}
+Leaves == Prims \cup Named \cup NamedOther \cup {"raw"}
 Ctors  == {"array", "map"}
 
 \* a type expression is a sequence of constructors ending in a leaf: <<"map", "array", "string">> is map[array[string]]
@@ -21,9 +23,9 @@ Positions == {"field", "included", "member", "actparam", "actret", "finderparam"
 \* what Rest.li / Pegasus allow where
 WellFormed(e, m, pos) ==
   /\ Leaf(e) = "raw" => (pos = "field" /\ m \in {"req", "opt"})       \* untyped records only as plain record fields
-  /\ pos = "member" => (m = "req" /\ e # <<"union">>)                 \* no union directly inside a union
+  /\ pos = "member" => (m = "req" /\ e # <<"union">> /\ e # <<"o_union">>)   \* no union directly inside a union
   /\ pos \in {"actret", "findermeta", "entity"} => m = "req"
-  /\ pos \in {"findermeta", "entity"} => e = <<"record">>             \* metadata and entities are records
+  /\ pos \in {"findermeta", "entity"} => e \in {<<"record">>, <<"o_record">>}   \* metadata and entities are records
   /\ pos = "finderparam" => m \in {"req", "opt", "def"}
   /\ pos = "actparam" => m \in {"req", "opt", "def"}
 
